@@ -69,9 +69,9 @@ func computeGlobalDisplacements(
 // computePreconditioner computes the preconditioner of the system matrix for the conjugate
 // gradient method to converge faster.
 func computePreconditioner(sysMat mat.ReadOnlyMatrix) mat.ReadOnlyMatrix {
-	precond := mat.MakeSparse(sysMat.Rows(), sysMat.Cols())
+	precond := make(diagonalMatrix, sysMat.Rows())
 	for i := 0; i < sysMat.Rows(); i++ {
-		precond.SetValue(i, i, 1.0/sysMat.Value(i, i))
+		precond[i] = 1.0 / sysMat.Value(i, i)
 	}
 
 	return precond
@@ -101,4 +101,46 @@ func ensureSolutionIsGoodEnough(
 			))
 		}
 	}
+}
+
+// A diagonalMatrix is a square matrix whose values outside of the main diagonal are zero.
+// The values in the main diagonal are stored as they are, no matter how small.
+type diagonalMatrix []float64
+
+func (m diagonalMatrix) Rows() int { return len(m) }
+
+func (m diagonalMatrix) Cols() int { return len(m) }
+
+func (m diagonalMatrix) NonZeroIndicesAtRow(row int) []int { return []int{row} }
+
+func (m diagonalMatrix) Value(row, col int) float64 {
+	if row == col {
+		return m[row]
+	}
+
+	return 0.0
+}
+
+func (m diagonalMatrix) RowTimesVector(row int, v vec.ReadOnlyVector) float64 {
+	return m[row] * v.Value(row)
+}
+
+func (m diagonalMatrix) TimesVector(v vec.ReadOnlyVector) vec.ReadOnlyVector {
+	result := vec.Make(len(m))
+	for i, value := range m {
+		result.SetValue(i, value*v.Value(i))
+	}
+
+	return result
+}
+
+func (m diagonalMatrix) TimesMatrix(other mat.ReadOnlyMatrix) mat.ReadOnlyMatrix {
+	result := mat.MakeSparse(len(m), other.Cols())
+	for i, value := range m {
+		for _, j := range other.NonZeroIndicesAtRow(i) {
+			result.SetValue(i, j, value*other.Value(i, j))
+		}
+	}
+
+	return result
 }
